@@ -91,6 +91,21 @@ theorem missing_label_keyerror (labels : List Nat) (l : Nat) (h : containsLabel 
 /-- an unsupported key type raises TypeError -/
 theorem other_key_typeerror (labels : List Nat) : getItem labels .other = .typeError := rfl
 
+theorem item_key_typeerror (labels : List Nat) (p : Nat) : getItem labels (.item p) = .typeError := rfl
+
+/-- membership: every item that iteration yields is `in` the block; a label is `in` it exactly when
+    lookup by it succeeds; integers and objects of other types raise TypeError -/
+theorem in_item_iff_iterated (labels : List Nat) (p : Nat) : memberOf labels (.item p) = .yes ↔ p < labels.length := by
+  simp only [memberOf]; split <;> simp_all
+
+theorem in_label_iff_lookup (labels : List Nat) (l : Nat) :
+    memberOf labels (.label l) = .yes ↔ ∃ p, getItem labels (.label l) = .item p := by
+  rw [← contains_iff_lookup]; simp only [memberOf]; split <;> simp_all
+
+theorem in_never_raises_for_labels_and_items (labels : List Nat) (k : Key) :
+    memberOf labels k = .typeError ↔ (∃ i, k = .idx i) ∨ k = .other := by
+  cases k <;> simp [memberOf] <;> split <;> simp
+
 /-- the length is the number of items iteration yields; lookups are functions of the list and
     return no new state: they cannot change the block -/
 theorem length_is_iteration (labels : List Nat) : labels.length = (labels.map id).length := by simp
@@ -98,5 +113,6 @@ theorem length_is_iteration (labels : List Nat) : labels.length = (labels.map id
 example : getItem [7, 8, 7] (.label 7) = .item 0 := by decide
 example : getItem [7, 8, 7] (.idx (-1)) = .item 2 := by decide
 example : getItem [7, 8, 7] (.label 9) = .keyError := by decide
+example : memberOf [7, 8, 7] (.item 2) = .yes ∧ memberOf [7, 8, 7] (.idx 0) = .typeError ∧ memberOf [7, 8] (.label 9) = .no := by decide
 
 end Tdf.C18
